@@ -138,6 +138,19 @@ pub(crate) fn check_compare_address(class_a: u16, class_b: u16, a6: bool, b6: bo
     }
 }
 
+/// Assumed by unit `tiebreak`: comparing the big-endian (wire) bytes of two u16 is their numeric order
+/// (DnsSrv::compare_rdata spells its comparisons that way), and the derived Ord of RRType is the order of the
+/// type codes.  Loop-free over all inputs: complete.
+pub(crate) fn check_be_bytes_cmp(a: u16, b: u16) {
+    assert!(a.to_be_bytes().cmp(&b.to_be_bytes()) == a.cmp(&b));
+}
+pub(crate) fn check_rrtype_cmp(a: u16, b: u16) {
+    if let (Some(x), Some(y)) = (RRType::from_u16(a), RRType::from_u16(b)) {
+        assert!(x as u16 == a && y as u16 == b);
+        assert!(x.cmp(&y) == a.cmp(&b));
+    }
+}
+
 /// Assumed contract of DnsOutPacket::parse_escaped_name (unit `encoder`): labels are non-empty, none longer
 /// than the name's longest unescaped-dot-free run allows (here: than the name), wire size <= name length + 1.
 /// Kani does not finish on symbolic strings (measured: 4 bytes > 120 s), so this is a BOUNDED stand-in by
@@ -184,5 +197,7 @@ mod proofs {
     #[kani::proof] fn kani_remaining_ttl_bounded() { check_remaining_ttl(kani::any(), kani::any(), kani::any()); }
     #[kani::proof] fn kani_dns_entry_new() { check_dns_entry_new(kani::any()); }
     #[kani::proof] #[kani::unwind(10)] #[kani::stub(crate::current_time_millis, stub_now)] fn kani_compare_address() { check_compare_address(kani::any(), kani::any(), kani::any(), kani::any(), kani::any(), kani::any()); }
+    #[kani::proof] #[kani::unwind(4)] fn kani_be_bytes_cmp() { check_be_bytes_cmp(kani::any(), kani::any()); }
+    #[kani::proof] fn kani_rrtype_cmp() { check_rrtype_cmp(kani::any(), kani::any()); }
     #[kani::proof] #[kani::unwind(10)] #[kani::stub(crate::current_time_millis, stub_now)] fn kani_suppressed_by_answer() { check_suppressed_by_answer(kani::any(), kani::any(), kani::any(), kani::any()); }
 }
